@@ -20,8 +20,10 @@ LEVEL_KINDS = [
     # forced collisions: a chain through an outer binding whose next link is shadowed further in; layers with identical text;
     # an applied function whose argument is an identifier bound by a let around the call
     "let_z", "let_a_is_z", "let_same", "formals_idarg",
+    # a non-cyclic chain that passes through two bindings of the same name: let a = N; in let z = a; in let a = z; in ...
+    "let_z_is_a",
 ]
-CORE_KINDS = {"let_z", "let_a_is_z", "let_same", "formals_idarg", "let_a", "let_alias", "let_none", "let_selfcycle", "let_2cycle", "with_a", "with_none", "withid_a", "formals_arg", "formals_default", "rec_a", "set_a", "rec_none"}
+CORE_KINDS = {"let_z", "let_z_is_a", "let_a_is_z", "let_same", "formals_idarg", "let_a", "let_alias", "let_none", "let_selfcycle", "let_2cycle", "with_a", "with_none", "withid_a", "formals_arg", "formals_default", "rec_a", "set_a", "rec_none"}
 PASS_THROUGH = {"lam_other", "assert", "paren"}
 INNER_SHAPES = ["plain", "plain_a", "rec_a", "nested_plain_a", "nested_rec_a", "inherit_a", "rec_inherit_a", "inherit_from", "chain_in_rec", "rec_inherit_from_shadowed"]
 SAME = 7  # the literal used by every `let_same` level
@@ -70,6 +72,9 @@ def build(levels: tuple, inner: str) -> Program:
         elif k == "let_a_is_z":
             open_parts.append("let a = z; in ")
             frames.append(Frame("lex", {"a": ("ref", "z", "self")}))
+        elif k == "let_z_is_a":
+            open_parts.append("let z = a; in ")
+            frames.append(Frame("lex", {"z": ("ref", "a", "self")}))
         elif k == "let_same":
             open_parts.append(f"let a = {SAME}; in ")
             frames.append(Frame("lex", {"a": ("lit", SAME)}))
